@@ -58,7 +58,8 @@ macro_rules
          all_goals first | rfl | t_chain)
       | (pick_hyp h => (apply h; t_chain)))
 
-set_option maxHeartbeats 4000000 in
+-- 45 verification conditions, each closed by a search along the relational facts: 4x the default budget
+set_option maxHeartbeats 800000 in
 theorem finishNotify_t (t : TaskId) (time : Int) : KeepsT (finishNotify t time) := by
   mvcgen [finishNotify, setGraph, logE, getGraph, getTask]
   case inv1 => exact owedLoop
@@ -80,7 +81,5 @@ theorem finishNotify_t (t : TaskId) (time : Int) : KeepsT (finishNotify t time) 
         | (apply hh; t_chain))
     | (apply TallyP.weak; t_chain)
     | (pick_hyp hg => exact tally_notify_w' _ _ _ _ _ _ _ ‹Tally _› hg rfl rfl rfl rfl rfl rfl rfl))
-  all_goals trace_state
-  all_goals sorry
 
 end ErdosVerif.Model.Sim
